@@ -55,8 +55,6 @@ Fixpoint avJ (a : av) : J :=
   | ADict d => JL (JS "d" :: (fix go (d : list (string * av)) := match d with [] => [] | (k, v) :: d' => JL [JS k; avJ v] :: go d' end) d)
   end.
 Definition callJ (c : call av) : J := JL [JL (map avJ (fst c)); JL (map (fun kv => JL [JS (fst kv); avJ (snd kv)]) (snd c))].
-Fixpoint lz_eqb' (a b : list Z) : bool :=
-  match a, b with [], [] => true | x :: a', y :: b' => Z.eqb x y && lz_eqb' a' b' | _, _ => false end.
 Definition run_cache (cs : list (call av)) : J :=
-  let st := crun (call_key true) lz_eqb' (fun n _ => Z.of_nat (S n)) cs in
+  let st := crun (call_key true) lz_eqb (fun n _ => Z.of_nat (S n)) cs in
   JL [JL (map JZ (rets st)); JL (map callJ (trace st))].
